@@ -1,7 +1,7 @@
 (* C19 -- property theorems only.  Proofs live in C19/Proofs*.v. *)
 From Coq Require Import NArith List.
 From DV Require Import Base.Outcome Base.Bytes Base.Names Base.PName C19.Gen C19.Model
-  C19.ModelCmp C19.ProofsDec C19.ProofsOld C19.ProofsNew C19.ProofsAgree C19.ProofsCmp C19.ProofsCmpSound C19.ProofsCmpInv C19.ProofsRev C19.ModelEdns C19.ModelMsg C19.ProofsItems C19.ProofsEdns C19.ProofsCmpRev C19.ProofsCmpRegions C19.ProofsMsg C19.ProofsMsgIff C01.Model C01.Model3 C05.OptModel.
+  C19.ModelCmp C19.ProofsDec C19.ProofsOld C19.ProofsNew C19.ProofsAgree C19.ProofsCmp C19.ProofsCmpSound C19.ProofsCmpInv C19.ProofsRev C19.ModelEdns C19.ModelMsg C19.ProofsItems C19.ProofsEdns C19.ProofsCmpRev C19.ProofsCmpRegions C19.ProofsMsg C19.ProofsMsgIff C19.ProofsFlat C01.Model C01.Model3 C05.OptModel.
 Import ListNotations.
 Local Open Scope N_scope.
 
@@ -302,3 +302,12 @@ Theorem C19_record_section_agrees : forall h c, length h = 12%nat -> wf_bytes c 
     (ok = true -> s_err s' = None /\ s_pos s' = 12 + off' /\ length tr = length acc').
 Proof. exact record_section_agrees. Qed.
 Print Assumptions C19_record_section_agrees.
+
+(* ---- round 5 ---- *)
+(* the uncompressed parser Name::split_bytes_by_ref (behind <&Name>::parse_bytes,
+   NameBuf::parse_bytes, the names of SRV / DNAME ... RDATA) accepts every valid
+   name - up to and including 255 octets - and returns exactly the octets behind it *)
+Theorem C19_flat_split_complete : forall n rest, valid_abs n ->
+  flat_split (wire_abs n ++ rest) = Ok (wire_abs n, rest).
+Proof. exact flat_split_complete. Qed.
+Print Assumptions C19_flat_split_complete.
